@@ -126,6 +126,12 @@ def gen_continuum(ch, *, min_annot=2, max_annot=4, max_units=7, labelset="alpha"
             s, e, l = ch.choice(units[n])
             others = [x for x in labels if x != l]
             units[n].append([s, e, ch.choice(others)])
+    if ch.coin(0.08):
+        # the whole timeline at or below zero (Continuum bounds start at (0, 0), so bound_sup stays 0)
+        top = max([e for n in names for _, e, _ in units[n]] or [0.0])
+        off = top + ch.choice([0.0, 0.0, 2.5])
+        for n in names:
+            units[n] = [[r3(s - off), r3(e - off), l] for s, e, l in units[n]]
     # de-duplicate, cap
     out = []
     total = 0
